@@ -451,10 +451,38 @@ def run(props, tier, seed):
     total.samples = total.samples[:6]
     if 'C03' in props:
         run_pandas_forms(total)
+    if 'C14' in props:
+        run_seeded_series(total)
     if 'C18' in props:
         run_coverage_matrices(total)
         run_coverage_literals(total)
     return total
+
+
+def run_seeded_series(b):
+    """C14 through the pandas entry point: a seed given to pdextract reaches the extractor (the default sizes only
+    sample above 4000 distinct values, so the column has 4200), the global generator is left as it was, and the
+    result is the seeded result of the list form."""
+    import pandas as pd
+    from tdda.rexpy import rexpy
+    vals = ['id%05d' % (7 * i) for i in range(4200)] + [None, 'id00000']
+    ser = pd.Series(vals, dtype=object)
+    w = {'series': '4200 distinct idNNNNN strings, a null and a repeat', 'seed': 5}
+    b.case(('pdextract-seeded', 4200))
+    for prior in (12345, 999):
+        random.seed(prior)
+        st = random.getstate()
+        with quiet():
+            ok, rex = b.guarded('C14.extract.noraise', lambda: rexpy.pdextract(ser, seed=5), w)
+        b.check('C14.global-prng-state-unchanged', random.getstate() == st, dict(w, prior_state_seed=prior),
+                'random.getstate() differs after pdextract(..., seed=5)')
+        if ok:
+            random.seed(prior + 1)
+            with quiet():
+                ok2, rex2 = b.guarded('C14.extract.noraise',
+                                      lambda: rexpy.extract([v for v in vals if v is not None], seed=5), w)
+            if ok2:
+                b.check('C14.list-equals-frequency-dict', rex == rex2, dict(w, form='Series'), '%r vs %r' % (rex, rex2))
 
 
 def run_pandas_forms(b):
